@@ -32,9 +32,11 @@ use sx::{quote, Sx};
 
 /// Custom instruction pushed by the harness extension.
 #[derive(Debug, Clone, PartialEq, Serialize, Deserialize)]
-pub struct Ins {
-    pub tag: u64,
-    pub reg: u64,
+#[serde(tag = "type", content = "content")]
+pub enum Ins {
+    /// adjacently tagged like the library's own enums: a change of the tagging of the enclosing
+    /// `SemanticStackContext` (which holds `ExtendedExpression(Box<Ins>)`) is then felt
+    Mark { tag: u64, reg: u64 },
 }
 impl SemanticContextInstruction for Ins {}
 
@@ -55,7 +57,7 @@ impl ExtendedExpression<Ins> for Ext {
     ) -> ExpressionResult {
         block_state.borrow_mut().inc_register();
         let reg = block_state.borrow().last_register_number;
-        block_state.borrow_mut().extended_expression(&Ins {
+        block_state.borrow_mut().extended_expression(&Ins::Mark {
             tag: self.tag,
             reg,
         });
@@ -822,7 +824,10 @@ fn d_instr(o: &mut String, i: &SemanticStackContext<Ins>, prog: &Main) {
             d_ty(o, &func_arg.parameter_type);
             o.push_str("))");
         }
-        S::ExtendedExpression(ins) => write!(o, "(Ext {} {})", ins.tag, ins.reg).unwrap(),
+        S::ExtendedExpression(ins) => {
+            let Ins::Mark { tag, reg } = ins.as_ref();
+            write!(o, "(Ext {tag} {reg})").unwrap();
+        }
     }
 }
 
